@@ -18,6 +18,8 @@ theorem realloc_policy (dl size : Int) : Funcs.hdrRealloc dl size = hdrRealloc d
 theorem incremental_policy (size : Int) : Funcs.hdrIncremental size = hdrIncremental size := rfl
 
 /-- a length is rejected iff `Atoi` failed or it is negative -/
-theorem bad_length (e : Bool) (size : Int) : Funcs.hdrBadLength e size = (e || decide (size < 0)) := rfl
+theorem bad_length (e : Bool) (size : Int) : Funcs.hdrBadLength e size = (e || decide (size < 0)) := by
+  unfold Funcs.hdrBadLength
+  cases e <;> by_cases h : size < 0 <;> simp [h]
 
 end Jrpc.Tie.C11
